@@ -600,6 +600,42 @@ def map_write_policy(facts, fn, key_ty):
     return 'last'
 
 
+def r15_imports_declared(c, facts, rule='C08.R15'):
+    """every `use` statement declares its names: two statements that name the same file under different spellings or
+    qualifiers are two imports (`use "b.oal" as x; use "./b.oal" as y;` makes both x.n and y.n available)"""
+    R = c.rule(rule, 'IMPORTS-DECLARED: resolve() hands every `use` statement of the module to declare_import, unconditionally')
+    base = c.anchor(R, 'oal_compiler::resolve::resolve')
+    fn = facts.inlined(base, keep=('import', 'declare_import', 'declare_variable', 'define_variable', 'open_declaration', 'open_recursion', 'close_declaration', 'close_recursion', 'open', 'close', 'declare', 'lookup', 'connect'))
+    sites = P.call_blocks(fn, 'resolve::declare_import')
+    if sites:
+        db = {b for b, t in sites}
+        # the loop the call stands in: the nearest Iterator::next that can reach it and be reached from it
+        nxs = [(b, t) for b, t in P.call_blocks(fn, 'Iterator::next') if any(d in fn.reachable_from(b) and b in fn.reachable_from(d) for d in db)]
+        if not nxs:
+            c.bad(R, 'resolve:import-loop-not-found', 'resolve(): declare_import is not called in a loop over the imports')
+            return
+        nb, nt = nxs[0]
+        inst = {'form': 'loop', 'declare_import_sites': len(sites)}
+        # an iteration that reaches the next one without declare_import (error exits leave the loop)
+        av = db | P.err_blocks(fn)
+        if nb in fn.reachable_from(nt['target'], avoid=av):
+            c.bad(R, 'resolve:import-not-declared-on-some-path', 'resolve() can go on to the next `use` statement without having declared the present one: its names (or its qualifier) are not in scope although the statement was accepted', **inst)
+        else:
+            c.ok(R, inst)
+        return
+    # `prog.imports().try_for_each(|import| declare_import(..))`
+    for cl in facts.closures_of(base):
+        cs = P.call_blocks(cl, 'resolve::declare_import') if cl.mir else []
+        if cs:
+            cb = {b for b, t in cs}
+            if P.success_return_reachable(cl, 0, cb):
+                c.bad(R, 'resolve:import-not-declared-on-some-path', 'the closure resolve() applies to every `use` statement can succeed without declaring it')
+            else:
+                c.ok(R, {'form': 'closure', 'declare_import_sites': len(cs)})
+            return
+    c.bad(R, 'resolve:declare_import-not-called', 'resolve() no longer calls declare_import')
+
+
 def r14_same_winner(c, facts, rule='C08.R14'):
     """two binders of one name in one scope (`let pick x x = x`): the resolver and the evaluator must agree on which one
     a use denotes - both tables are written by a plain insert (the later binder replaces the earlier one)"""
@@ -618,6 +654,7 @@ def r14_same_winner(c, facts, rule='C08.R14'):
 
 
 def run(c, facts):
+    c.run(r15_imports_declared, facts)
     c.run(r14_same_winner, facts)
     c.run(r13_lexical_eval, facts)
     import c10
